@@ -291,6 +291,12 @@ var properties = map[string]*Property{
 			Quick:      Tier{Runs: 4000, BudgetS: 60},
 			Thorough:   Tier{Runs: 200000, BudgetS: 600},
 		}, {
+			Name: "listener-sim", Property: "C19", Pkg: "./internal/handler/listener", Test: "TestVerifListener",
+			Dirs:     []string{"internal/handler/listener"},
+			Files:    []string{"zz_verif_listener_test.go"},
+			Quick:    Tier{Runs: 300, BudgetS: 60},
+			Thorough: Tier{Runs: 20000, BudgetS: 600},
+		}, {
 			Name: "reload-tls", Property: "C19", Pkg: "./internal/x/tlsx", Test: "TestVerifReloadTLS",
 			Dirs:       []string{"internal/x/tlsx"},
 			Files:      []string{"zz_verif_reload_test.go"},
@@ -322,6 +328,6 @@ var properties = map[string]*Property{
 			"request lines net/http itself rejects (unparsable URL) are not sent",
 			"the rule provider paths (file system, HTTP endpoint, Kubernetes informer) are covered for crashes by the C18 harnesses, whose process deaths are reported the same way",
 		},
-		MustBePositive: []string{"robust-sim/ruleset-accepted", "robust-sim/ruleset-rejected-by-factory", "robust-sim/ruleset-rejected-by-parser", "robust-sim/fault:type-confuse", "signer-reload/fault:torn-write-exposed", "reload-tls/reloads", "reload-httpsig/reloads", "provider-fs-conc/processor-calls"},
+		MustBePositive: []string{"robust-sim/ruleset-accepted", "robust-sim/ruleset-rejected-by-factory", "robust-sim/ruleset-rejected-by-parser", "robust-sim/fault:type-confuse", "signer-reload/fault:torn-write-exposed", "reload-tls/reloads", "reload-httpsig/reloads", "provider-fs-conc/processor-calls", "listener-sim/well-behaved-requests-answered"},
 	},
 }
